@@ -194,7 +194,9 @@ def build_inputs(rng, root):
     p = os.path.join(root, 'run', r2.choice(['plt_00010', 'plt_00010', 'plt_00010_ck', 'plt_t0.25', 'plt_00010_cb', 'plt_00010_ck']))
     os.makedirs(os.path.dirname(p))
     diskimg.write_image(diskimg.image_of(pf), p)
-    sib = c06.second_plotfile(rng, pf, 'different')
+    # the second plotfile's box-to-file layout: another one (combine pairs boxes one by one) or the same (it streams whole files)
+    rel = random.Random(repr(rng.getstate()[1][:8])).choice(['different', 'same', 'same'])
+    sib = c06.second_plotfile(rng, pf, rel)
     sib.fields = ['sib_' + f for f in sib.fields]
     p2 = os.path.join(root, 'run', 'plt2_00010')
     diskimg.write_image(diskimg.image_of(sib), p2)
